@@ -66,6 +66,16 @@ class Watched(PDUData):
 
     def get_data(self, dlen):
         self._tick()
+        # engine aid, no change of meaning: a length that came out of a symbolic octet is
+        # pinned to a plain int (one path per feasible value - the fork the slice would cause
+        # anyway) BEFORE the library slices its buffer; slicing a bytearray by a symbolic
+        # bound leaves the engine with lazy views that cost ~100 queries per later `del`
+        n = len(self.pduData)
+        if dlen <= n:
+            for k in range(n + 1):
+                if dlen == k:
+                    dlen = k
+                    break
         return PDUData.get_data(self, dlen)
 
 
